@@ -77,3 +77,18 @@ func gvcIsArmed(ch any) bool { panic("ghost") }
 
 // gvcMapHas(m, k): k is present in map m.
 func gvcMapHas[K comparable, V any](m map[K]V, k K) bool { _, ok := m[k]; return ok }
+
+// specAt / specStrAt: element i of a slice/string, 0 outside (replay inputs only).
+func specAt(b []byte, i int) byte {
+	if i >= 0 && i < len(b) {
+		return b[i]
+	}
+	return 0
+}
+
+func specStrAt(s string, i int) byte {
+	if i >= 0 && i < len(s) {
+		return s[i]
+	}
+	return 0
+}
